@@ -109,6 +109,7 @@ impl BlockEncoder {
             }
 
             let (symbol, is_last_symbol) = symbol.as_ref().unwrap();
+            let is_last_symbol = *is_last_symbol;
 
             self.block_multiplex_index += 1;
             if symbol.is_source_symbol {
@@ -117,11 +118,7 @@ impl BlockEncoder {
 
             self.nb_pkt_sent += 1;
 
-            let is_last_packet = (self.source_size_transferred
-                >= self.file.object.transfer_length as usize)
-                && *is_last_symbol;
-
-            return Some(pkt::Pkt {
+            let mut pkt = pkt::Pkt {
                 payload: symbol.symbols.to_vec(),
                 transfer_length: self.file.object.transfer_length,
                 esi: symbol.esi,
@@ -130,10 +127,20 @@ impl BlockEncoder {
                 fdt_id: self.file.fdt_id,
                 cenc: self.file.object.config.cenc,
                 inband_cenc: self.file.object.config.inband_cenc,
-                close_object: force_close_object || (self.closabled_object && is_last_packet),
+                close_object: force_close_object,
                 source_block_length: block.nb_source_symbols as u32,
                 sender_current_time: self.file.sender_current_time,
-            });
+            };
+
+            // Last packet of the transfer: all the source symbols have been sent and no block of
+            // the interleave window still holds a symbol (the other blocks may hold repair symbols)
+            let is_last_packet = (self.source_size_transferred
+                >= self.file.object.transfer_length as usize)
+                && is_last_symbol
+                && self.blocks.iter().all(|block| block.is_empty());
+
+            pkt.close_object = force_close_object || (self.closabled_object && is_last_packet);
+            return Some(pkt);
         }
     }
 
